@@ -3,7 +3,7 @@
 #include <cstdint>
 extern "C" {
 void __CPROVER_assume(bool);
-void __CPROVER_assert(bool, const char *);
+__attribute__((nomerge)) void __CPROVER_assert(bool, const char *);
 uint8_t nondet_u8();
 uint16_t nondet_u16();
 uint32_t nondet_u32();
